@@ -85,6 +85,15 @@ class ExecRun:
                 if exc is not None:
                     self.state = "failed"
                     self.future.set_exception(exc)
+                    # run_until_complete() returns, the loop is closed: the other clients' coroutines die with it
+                    for c in list(self.world.pending):
+                        if self.world.worker_of_client(c) == self.worker_name:
+                            del self.world.pending[c]
+                            self.world.cell_override[c] = "aband"
+                    # keep the abandoned coroutines alive until the end of the race: their `finally` blocks must not run at
+                    # some garbage-collection dependent moment
+                    self.world.keepalive.append(list(asyncio.all_tasks(self.loop)))
+
                 else:
                     self.future.set_result(None)
                 self.loop.close()
@@ -208,6 +217,8 @@ def build_config(world, test_mode, on_error, queue_size, downsample, cores, host
     cfg.add(S, "driver", "load_driver_hosts", hosts)
     cfg.add(S, "client", "hosts", opts.TargetHosts("127.0.0.1:9200"))
     cfg.add(S, "client", "options", opts.ClientOptions("timeout:60,static_responses:true"))
+    cfg.add(S, "race", "pipeline", "benchmark-only")
+    cfg.add(S, "mechanic", "plugin.params", {})
     cfg.add(S, "telemetry", "devices", [])
     cfg.add(S, "telemetry", "params", {})
     return cfg
@@ -218,7 +229,12 @@ class RaceWorld:
 
     DRIVER = "DriverActor1"
 
-    def __init__(self, scn, seed=0, test_mode=True, on_error="continue", queue_size=None, downsample=1, pp_interval=2, offsets=None, hosts=None, cores=None):
+    RC = "BenchmarkActor1"
+
+    def __init__(self, scn, seed=0, test_mode=True, on_error="continue", queue_size=None, downsample=1, pp_interval=2, offsets=None, hosts=None, cores=None, full=False):
+        """full=True: race control is the REAL racecontrol.BenchmarkActor (+ BenchmarkCoordinator, FileRaceStore in scratch,
+        in-memory metrics store); the mechanic is a stub actor; the 'user' endpoint plays actor_system.ask()."""
+        self.full = full
         ensure_rally_home()
         sys.unraisablehook = lambda *a: None  # abandoned coroutines of hanging races complain when collected
         from esrally import client, metrics
@@ -235,6 +251,10 @@ class RaceWorld:
         self.events = []
         self.exec_obs = {"started": [], "finished": []}  # observations of AsyncExecutor coroutines (client, task id, ...)
         self.fault = None
+        self.fault_fired = False
+        self.keepalive = []
+        self.cell_override = {}  # client -> "failed" | "aband": coroutines that died with a failing executor / a dead worker
+        self.param_fault = None  # (task id, client_index_in_task) whose parameter source raises on the next call
         self._patches = []
         world = self
         FakeEsCls = _make_fake_es_class()
@@ -271,15 +291,43 @@ class RaceWorld:
             def receiveMsg_PrepareTrack(self_, msg, sender):
                 self_.send(sender, driver.TrackPrepared())
 
+        from esrally import mechanic, racecontrol, reporter
+        from esrally import track as track_pkg
+
+        class StubMechanic(ta_actor()):
+            def receiveMsg_StartEngine(self_, msg, sender):
+                self_.send(sender, mechanic.EngineStarted(team_revision=None))
+
+            def receiveMsg_StopEngine(self_, msg, sender):
+                world.mechanic_stopped += 1
+                self_.send(sender, mechanic.EngineStopped())
+
+            def receiveMsg_ResetRelativeTime(self_, msg, sender):
+                pass
+
+        self.mechanic_stopped = 0
+        self.summaries = []
         self.clock.install()
-        self.sim = SimActorSystem(self.clock, class_map={driver.Worker: SimWorker, driver.TrackPreparationActor: StubPreparator})
+        self.sim = SimActorSystem(
+            self.clock, class_map={driver.Worker: SimWorker, driver.TrackPreparationActor: StubPreparator, mechanic.MechanicActor: StubMechanic}
+        )
         W = scn["W"]
         hosts = hosts or ["localhost"]
         cores = cores or W
         self.cfg = build_config(self, test_mode, on_error, queue_size, downsample, cores, hosts)
         self.track, self.tasks_by_id = build_track(scn)
-        self.rc = self.sim.endpoint("rc")
-        self.drv_addr = self.sim.create(driver.DriverActor, parent=None, name=self.DRIVER)
+        if full:
+            import shutil
+
+            shutil.rmtree(os.path.join(ensure_rally_home(), "root"), ignore_errors=True)
+            self._patch(track_pkg, "load_track", lambda cfg, install_dependencies=False: world.track)
+            self._patch(racecontrol.track, "load_track", lambda cfg, install_dependencies=False: world.track)
+            self._patch(reporter, "summarize", lambda results, cfg: world.summaries.append(results))
+            self.user = self.sim.endpoint("user")
+            self.rc = self.sim.create(racecontrol.BenchmarkActor, parent=None, name=self.RC)
+        else:
+            self.rc = self.sim.endpoint("rc")
+            self.drv_addr = self.sim.create(driver.DriverActor, parent=None, name=self.DRIVER)
         for i in range(W):
             if offsets:
                 self.clock.offsets["Worker%d" % (i + 1)] = offsets[i % len(offsets)]
@@ -306,10 +354,17 @@ class RaceWorld:
     # ---- bootstrap up to start_benchmark (deterministic prefix, not part of the explored schedule)
     def start(self):
         d = self.driver_mod
-        self.sim.send("rc", self.DRIVER, d.PrepareBenchmark(self.cfg, self.track))
-        self.run_until(lambda: any(isinstance(m, d.PreparationComplete) for _, m in self.rc_inbox()))
-        self.sim.send("rc", self.DRIVER, d.StartBenchmark())
-        self.sim.step(("deliver", "rc", self.DRIVER))
+        if self.full:
+            from esrally import racecontrol
+
+            self.sim.send("user", self.RC, racecontrol.Setup(self.cfg, external=True))
+            # deterministic prefix: engine start, track preparation, until StartBenchmark has been handled by the driver
+            self.run_until(lambda: self.DRIVER in self.sim.actors and self.sim.actors[self.DRIVER].instance.driver is not None and any(n.startswith("Worker") for n in self.sim.actors))
+        else:
+            self.sim.send("rc", self.DRIVER, d.PrepareBenchmark(self.cfg, self.track))
+            self.run_until(lambda: any(isinstance(m, d.PreparationComplete) for _, m in self.rc_inbox()))
+            self.sim.send("rc", self.DRIVER, d.StartBenchmark())
+            self.sim.step(("deliver", "rc", self.DRIVER))
         # the preparation phase is over: let the track preparators exit before the explored part of the race begins
         while True:
             left = [d for d in self.sim.enabled() if d[0] == "deliver" and ("TrackPreparationActor" in d[1] or "TrackPreparationActor" in d[2])]
@@ -323,6 +378,17 @@ class RaceWorld:
 
     def rc_inbox(self):
         return self.sim.endpoints["rc"].inbox
+
+    def user_inbox(self):
+        return self.sim.endpoints["user"].inbox
+
+    def coordinator(self):
+        return self.sim.actors[self.RC].instance.coordinator
+
+    def race_file(self):
+        from esrally import paths
+
+        return os.path.join(paths.race_root(self.cfg), "race.json")
 
     def run_until(self, cond, limit=10000):
         n = 0
@@ -342,7 +408,7 @@ class RaceWorld:
     def enabled(self):
         res = list(self.sim.enabled())
         for wn, run in self.exec_runs.items():
-            if run.state == "submitted":
+            if run.state == "submitted" and self.sim.actors[wn].alive:
                 res.append(("exec_start", wn))
         for c in sorted(self.pending):
             res.append(("req", c))
@@ -369,8 +435,83 @@ class RaceWorld:
             return decision
         raise ValueError(decision)
 
+    # ---- fault injection (C09). One fault per race.
+    def arm_store_fault(self):
+        """The next record the driver's post-processing stores raises (metrics store failure while samples are stored)."""
+        world = self
+        store = self.sim.actors[self.DRIVER].instance.driver.metrics_store
+        orig = store.put_value_cluster_level
+        state = {"armed": True}
+
+        def failing(*a, **k):
+            if state["armed"]:
+                state["armed"] = False
+                world.fault_fired = True
+                raise IOError("verif: metrics store unavailable")
+            return orig(*a, **k)
+
+        store.put_value_cluster_level = failing
+
+    def arm_rc_store_fault(self):
+        """The next bulk_add of race control's metrics store raises."""
+        world = self
+        store = self.coordinator().metrics_store
+        orig = store.bulk_add
+        state = {"armed": True}
+
+        def failing(*a, **k):
+            if state["armed"]:
+                state["armed"] = False
+                world.fault_fired = True
+                raise IOError("verif: metrics store unavailable")
+            return orig(*a, **k)
+
+        store.bulk_add = failing
+
+    def kill_worker(self, w):
+        self.fault_fired = True
+        name = "Worker%d" % w
+        run = self.exec_runs.get(name)
+        for c in list(self.pending):
+            if self.worker_of_client(c) == name:
+                del self.pending[c]
+                self.cell_override[c] = "aband"
+        if run is not None and run.state in ("submitted", "running"):
+            # the process is gone: its executor never makes another step (its state stays what it was)
+            if run.loop is not None:
+                self.keepalive.append(list(asyncio.all_tasks(run.loop)))
+        self.sim.kill(name)
+
+    def cancel(self):
+        from esrally import actor
+
+        self.fault_fired = True
+        self.sim.send("user", self.RC, actor.BenchmarkCancelled())
+
+    def fail_request(self, c, kind, service_time=0.0):
+        """Completes the pending request of client c with a fatal outcome."""
+        import elastic_transport
+        import elasticsearch
+
+        self.fault_fired = True
+        if kind == "api_error":  # fails the race only under on-error=abort
+            meta = elastic_transport.ApiResponseMeta(status=400, http_version="1.1", headers=elastic_transport.HttpHeaders(), duration=0.0, node=None)
+            exc = elasticsearch.BadRequestError("verif bad request", meta, {"error": "verif"})
+        elif kind == "conn_error":  # fatal regardless of on-error
+            exc = elasticsearch.ConnectionError("verif connection refused")
+        else:  # the runner itself raises
+            exc = RuntimeError("verif runner failure")
+        req = self.pending.pop(c)
+        self.clock.advance_to(self.clock.now + service_time)
+        run = self.exec_runs[self.worker_of_client(c)]
+        self.cell_override[c] = "failed"
+        run.resume(lambda: req["fut"].set_result(exc))
+
     def worker_of_client(self, c):
         return "Worker%d" % self.scn["workerOf"][c]
+
+    def clients_of_worker(self, name):
+        return [c for c, w in enumerate(self.scn["workerOf"]) if "Worker%d" % w == name]
 
 
 def ta_actor():
